@@ -169,7 +169,7 @@ def run_chunk(args):
     os.makedirs(rundir, exist_ok=True)
     ops = os.path.join(rundir, "ops.txt")
     res = {"cases": 0, "lines": 0, "ok": 0, "bad": [], "hashes_nt": set(), "hashes_all": 0, "stats": {}, "samples": [],
-           "crash": None, "nontrivial": 0}
+           "crash": None, "nontrivial": 0, "known": {}, "nbad": 0}
     env = dict(os.environ, ASAN_OPTIONS="detect_leaks=0:abort_on_error=0", UBSAN_OPTIONS="print_stacktrace=1")
     if corpus_file:
         shutil.copy(corpus_file, ops)
@@ -217,9 +217,15 @@ def run_chunk(args):
             res["lines"] += 1
             if v == "ok":
                 res["ok"] += 1
-            else:
-                if len(res["bad"]) < 200:
+            elif v.startswith("KNOWN "):
+                key = " ".join(v.split(" ", 3)[:3])
+                res["known"][key] = res["known"].get(key, 0) + 1
+                if res["known"][key] <= 2:
                     res["bad"].append(v)
+            else:
+                if res["nbad"] < 200:
+                    res["bad"].append(v)
+                res["nbad"] += 1
     if rc != 0:
         res["crash"] = {"rc": rc, "last_case": last_hdr, "stderr": err[-3000:], "mode": mode, "seed": seed}
     shutil.rmtree(rundir, ignore_errors=True)
@@ -240,12 +246,14 @@ def correspondence(exe_by_name, runs, seed, corpus_files):
             n = min(per, first + count - f)
             if n > 0:
                 tasks.append((exe_by_name[h], mode, seed, f, n, "%s_%s_%d" % (h, mode, f), None))
-    total = {"cases": 0, "lines": 0, "ok": 0, "bad": [], "hashes_nt": set(), "stats": {}, "samples": [], "crashes": [], "nontrivial": 0}
+    total = {"cases": 0, "lines": 0, "ok": 0, "bad": [], "hashes_nt": set(), "stats": {}, "samples": [], "crashes": [], "nontrivial": 0, "known": {}}
     with ProcessPoolExecutor(max_workers=JOBS) as ex:
         for res in ex.map(run_chunk, tasks):
             total["cases"] += res["cases"]; total["lines"] += res["lines"]; total["ok"] += res["ok"]
             total["nontrivial"] += res["nontrivial"]
             total["bad"].extend(res["bad"])
+            for k, v in res["known"].items():
+                total["known"][k] = total["known"].get(k, 0) + v
             total["hashes_nt"].update(res["hashes_nt"])
             for k, v in res["stats"].items():
                 total["stats"][k] = total["stats"].get(k, 0) + v
@@ -370,6 +378,8 @@ def main():
             for k in ("cases", "lines", "ok", "nontrivial"):
                 total[k] += t1[k]
             total["bad"].extend(t1["bad"]); total["hashes_nt"].update(t1["hashes_nt"]); total["crashes"].extend(t1["crashes"])
+            for k, v in t1["known"].items():
+                total["known"][k] = total["known"].get(k, 0) + v
     bad = [parse_bad(v) for v in total["bad"]]
     bad = [b for b in bad if relevant(pid, cfg, b)]
 
@@ -396,7 +406,7 @@ def main():
         if b["kind"] == "KNOWN":
             fid = b["detail"].split(" ")[0]
             if known.get(fid, {}).get("status") == "open" and known[fid]["property"] == pid:
-                known_hit[fid] = known_hit.get(fid, 0) + 1
+                known_hit[fid] = total["known"].get("KNOWN %s %s" % (pid, fid), 1)
             else:
                 b["kind"] = "PROPFAIL"   # not listed as open: a violation like any other
     found = handle_propfails(bad, "propfail")
